@@ -12,7 +12,10 @@ for seed, det in sorted(M.items()):
         if any(v.get('patch') == patch for v in vs):
             continue
         # expectation: rule + construct name without any '#n' suffix
-        k = sorted(keys)[0]
+        nf = [k for k in sorted(keys) if '/floor:' not in k]
+        if not nf:
+            continue  # only an instance-count floor moved: not a detection worth replaying
+        k = nf[0]
         k = re.sub(r'#\d+$', '', k)
         vs.append({"name": "seed-" + seed, "expect": k, "patch": patch})
         json.dump(vs, open(path, 'w'), indent=1)
